@@ -98,6 +98,15 @@ theorem stop_clears (st : St) :
   rw [e]
   exact ⟨(purge_noOwn st.t).1, (purge_noOwn st.t).2.1, (purge_noOwn st.t).2.2, rfl, rfl, rfl⟩
 
+/-- **stop on a running thread** (`rtr_stop` = stop request, the thread's remaining work `f`, then
+    close / reset / purge): none of the socket's records remain — including those the thread applied
+    after the stop request — and the purge leaves the records of other sockets as the thread left them. -/
+theorem stop_live_clears (st : St) (f : St → St) :
+    NoOwn (stopFinish (f (stopBegin st))).t ∧ OthersSame (f (stopBegin st)).t (stopFinish (f (stopBegin st))).t ∧
+    (TblOK (f (stopBegin st)).t → TblOK (stopFinish (f (stopBegin st))).t) := by
+  rw [stopFinish_tbl]
+  exact ⟨(purge_noOwn _).1, (purge_noOwn _).2.1, (purge_noOwn _).2.2⟩
+
 /-- **other sockets**: along every history the records of other sockets are untouched -/
 theorem others_untouched (fuel : Nat) {st st' : St} (h : Reach fuel st st') (ht : TblOK st.t) :
     OthersSame st.t st'.t ∧ TblOK st'.t :=
